@@ -657,11 +657,43 @@ def size(case):
     return len(case['inp']['reqs']) * 1000 + sem['nc'] * sem['ns'] * sem['nt']
 
 
+def _drop_extra_channel(x, sem, c):
+    """Keep a bystander array in step with the dataset when the shrinker removes channel c (so that a look-alike file
+    keeps the shape of the file it resembles)."""
+    import numpy as np
+    if 'npy' not in x:
+        return x
+    nc, name, sp = sem['nc'], x['name'].lower(), x['npy']
+    a = np.array(sp['data'], dtype=object).reshape(sp['shape'])
+    dense = sem['cols'] is None
+    if 'ind' in name and a.ndim == 2:
+        if dense and a.shape[1] == nc:
+            a = np.delete(a, c, axis=1)
+        elif dense:
+            return x
+        f = (lambda v: type(v)(-1) if v == c else (v - 1 if v > c else v))
+        a = np.array([f(v) for v in a.ravel()], dtype=object).reshape(a.shape)
+    elif 'whiten' in name and a.shape == (nc, nc):
+        a = np.delete(np.delete(a, c, axis=0), c, axis=1)
+    elif a.ndim == 1 and a.shape[0] == nc and ('shank' in name or 'map' in name):
+        a = np.delete(a, c, axis=0)
+    elif a.ndim == 2 and a.shape == (nc, 2) and ('pos' in name or 'coord' in name):
+        a = np.delete(a, c, axis=0)
+    elif a.ndim == 3 and dense and a.shape[2] == nc and 'template' in name:
+        a = np.delete(a, c, axis=2)
+    else:
+        return x
+    dt = 'int64' if sp['dtype'].startswith('u') and any(v < 0 for v in a.ravel()) else sp['dtype']
+    return dict(x, npy={'dtype': dt, 'shape': list(a.shape), 'data': a.ravel().tolist()})
+
+
 def _drop_channel(sem, c):
     s = copy.deepcopy(sem)
     nc = s['nc']
     if nc <= 2:
         return None
+    if s.get('extras'):
+        s['extras'] = [_drop_extra_channel(x, sem, c) for x in s['extras']]
     s['nc'] = nc - 1
     s['positions'].pop(c)
     if s['shanks'] is not None:
